@@ -12,21 +12,28 @@ var c07Templates = []string{
 	`o ~> |$|{"z": 1}|`, `$ ~> |o|{"z": 1}|`, `$ ~> |objs|{"z": k}, ["v"]|`, `$ ~> |**|{"z": 1}|`, `$ ~> |$$|{"z": 1}|`, `$ ~> |$$.o|{"z": 1}|`, `o ~> |$$.o|{"z": 1}|`, `o ~> |$var|{"z": 1}|`,
 	`$var ~> |$|{"z": 1}|`, `$map(objs, |$|{"z": 1}|)`, `objs ~> |$|{"z": 1}| ~> |$|{"y": 2}|`, `o ~> |$|{"p": {"deep": 1}}|`, `$ ~> |o|{}, ["p", "q"]|`, `(o ~> |$|{"z": 1}|).z`,
 	`$each(o, function($v, $k){$k})`, `$sift(o, function($v){$v > 0})`, `$spread(o)`, `$keys(o)`, `arr[0]`, `objs.v`, `objs[k > 0]`, `[arr, arr]`, `{"a": arr}`, `$map(arr, function($v){$v})`,
+	`$append(head, 9)`, `$append(head, arr)`, `$reverse(head)`, `$sort(head)`, `[head, 9]`, `$ ~> |rows[0]|{"seen": true}, "v"|`, `$ ~> |rows|{"seen": true}|`, `rows ~> |$|{"z": 1}|`,
+	`$ ~> |objs[0]|{"z": 1}|`, `$merge([o, eo])`, `$zip(head, arr)`, `$shuffle(head)`, `$distinct(head)`,
 	`$reduce(arr, function($x, $y){$x + $y})`, `$filter(arr, function($v){$v > 0})`, `$single(arr, function($v){$v > 100})`, `$sort(objs, function($x, $y){$x.k > $y.k})`,
 }
 
 func c07Doc() (map[string]interface{}, map[string]interface{}) {
-	mk := func() map[string]interface{} {
-		return nil
+	var n, m float64
+	if verifParam("CONCRETE", 0) == 1 {
+		n, m = 1.5, -2
+	} else {
+		n, m = hFinite(), hFinite()
 	}
-	_ = mk
-	n, m := hFinite(), hFinite()
 	build := func() map[string]interface{} {
 		shared := map[string]interface{}{"k": n, "v": m}
+		all := []interface{}{n, m, 3.0, 4.0}
 		return map[string]interface{}{
 			"arr":  []interface{}{n, m, 3.0},
+			"all":  all,
+			"head": all[:2], // a slice with spare capacity whose backing array is visible elsewhere
 			"o":    map[string]interface{}{"p": n, "q": m},
 			"objs": []interface{}{shared, map[string]interface{}{"k": m, "v": n}, shared}, // shared sub-structure
+			"rows": []interface{}{[]interface{}{map[string]interface{}{"v": n}, map[string]interface{}{"v": m}}, []interface{}{map[string]interface{}{"v": 3.0}}},
 			"e":    []interface{}{},
 			"eo":   map[string]interface{}{},
 			"nul":  nil,
